@@ -7,6 +7,7 @@ import (
 	"fmt"
 	"os"
 	"runtime/debug"
+	"strings"
 	"sync"
 	"testing"
 
@@ -119,6 +120,15 @@ func (c *Ctx) Judge(t TB, test string, fl *Failure, cs interface{}) {
 		c.Rec.Label("survey:"+fl.Signature, 1)
 		if os.Getenv("VERIF_SURVEY") == "2" {
 			fmt.Fprintf(os.Stderr, "SURVEY %s :: %.300s\n", fl.Signature, fl.Detail)
+		}
+		if d := os.Getenv("VERIF_SURVEY_DIR"); d != "" {
+			b, _ := json.Marshal(cs)
+			_ = os.MkdirAll(d, 0o755)
+			name := strings.NewReplacer("/", "_", " ", "_", "=", "_").Replace(fl.Signature)
+			if _, err := os.Stat(d + "/" + name + ".json"); err != nil {
+				_ = os.WriteFile(d+"/"+name+".json", b, 0o644)
+				_ = os.WriteFile(d+"/"+name+".txt", []byte(fl.Detail), 0o644)
+			}
 		}
 		return
 	}
